@@ -7,7 +7,7 @@ V = os.path.dirname(os.path.dirname(os.path.abspath(__file__)))
 wt, vdir, name, prop = sys.argv[1:5]
 checks = sys.argv[5:]
 def sh(cmd, **kw):
-    p = subprocess.run(cmd, shell=True, stdout=subprocess.PIPE, stderr=subprocess.STDOUT, text=True, **kw)
+    p = subprocess.run(cmd, shell=True, stdout=subprocess.PIPE, stderr=subprocess.STDOUT, text=True, errors="replace", **kw)
     return p.returncode, p.stdout
 patch = os.path.join(vdir, "patch.diff")
 assert sh("git -C %s status --porcelain --untracked-files=no" % wt)[1].strip() == "", "worktree dirty"
